@@ -2625,7 +2625,6 @@ def _(ex, a):
 @prim('Rc::into_raw', 'Arc::into_raw')
 def _(ex, a):
     # the strong count is NOT given back: the caller owns it through the raw pointer
-    ex.raw_ptrs = getattr(ex, 'raw_ptrs', {})
     ex.raw_ptrs[_addr(a[0].box)] = a[0].box
     return _addr(a[0].box)
 
@@ -2952,3 +2951,47 @@ def _(ex, a):
 
 
 DROP_HOOKS['MapEntry'] = lambda ex, v: None
+
+
+# a format is human readable (JSON) or not (CBOR): free choice, the same for the serialiser and the deserialiser of one run
+def _human_readable(ex):
+    if 'human_readable' not in ex.path_facts:
+        ex.path_facts['human_readable'] = ex.choose(2, label='human-readable') == 0
+    return ex.path_facts['human_readable']
+
+
+@prim('<S as Serializer>::is_human_readable', '<D as Deserializer>::is_human_readable')
+def _(ex, a):
+    return _human_readable(ex)
+
+
+# ------------------------------------------------------------------ std hashing outside the modelled containers
+# A user's key type only promises k1 == k2 -> hash(k1) == hash(k2): the hash of a key is an uninterpreted function of
+# the key, and two different keys may collide.
+_HASH_FN = z3.Function('hash_of', z3.IntSort(), z3.IntSort(), z3.IntSort())
+
+
+@prim('DefaultHasher::new', '<DefaultHasher as Default>::default', '<RandomState as BuildHasher>::build_hasher',
+      'AHasher::default', '<AHasher as Default>::default')
+def _(ex, a):
+    return Agg('Hasher', [0])
+
+
+@prim('<K as Hash>::hash', '<&K as Hash>::hash', '<usize as Hash>::hash', '<i64 as Hash>::hash', '<N as Hash>::hash', '<E as Hash>::hash')
+def _(ex, a):
+    h = ex.deref(a[1])
+    v = ex.deref_all(a[0])
+    if isinstance(v, Agg):
+        raise Unsupported('hash of ' + v.kind)
+    nv = _HASH_FN(h.f[0] if not isinstance(h.f[0], int) else z3.IntVal(h.f[0]), v if not isinstance(v, int) else z3.IntVal(v))
+    ex.solver.add(nv >= 0, nv < 2 ** 64)
+    h.f[0] = nv
+    return UNIT()
+
+
+@prim('<DefaultHasher as Hasher>::finish', '<AHasher as Hasher>::finish', '<H as Hasher>::finish')
+def _(ex, a):
+    return ex.deref(a[0]).f[0]
+
+
+DROP_HOOKS['Hasher'] = lambda ex, v: None
